@@ -126,9 +126,13 @@ func (w *World) mergeable0(fn *ssa.Function, inProgress map[*ssa.Function]bool) 
 	for _, b := range fn.Blocks {
 		for _, in := range b.Instrs {
 			switch in := in.(type) {
-			case *ssa.Store, *ssa.MapUpdate, *ssa.Send, *ssa.Go, *ssa.Defer, *ssa.Select, *ssa.MakeChan,
-				*ssa.MakeMap, *ssa.Alloc, *ssa.MakeSlice, *ssa.Range, *ssa.Next, *ssa.RunDefers, *ssa.MakeClosure:
+			case *ssa.MapUpdate, *ssa.Send, *ssa.Go, *ssa.Defer, *ssa.Select, *ssa.MakeChan,
+				*ssa.MakeMap, *ssa.RunDefers, *ssa.MakeClosure:
 				return false
+			case *ssa.Range:
+				if !isStringType(in.X.Type()) {
+					return false
+				}
 			case *ssa.UnOp:
 				if in.Op.String() == "<-" {
 					return false
@@ -177,11 +181,13 @@ type mframe struct {
 
 func (c *Ctx) tryMerged(caller *Frame, fn *ssa.Function, args []Value, env []Value) (res Value, ok bool) {
 	saveGuard, saveDepth := c.guard, c.depth
+	mark := len(c.undo)
 	defer func() {
 		c.merging--
 		c.guard, c.depth = saveGuard, saveDepth
 		if r := recover(); r != nil {
 			if ma, isAbort := r.(mergeAbort); isAbort {
+				c.rollbackTo(mark) // guarded stores made so far are undone
 				c.w.mu.Lock()
 				c.w.stats.MergeAborts++
 				if len(c.w.mergeAbortWhy) < 40 {
